@@ -444,7 +444,7 @@ def kck_case(family, timeout=120):
 TOL = 1e-8
 
 
-def m2e_case(family, maxdepth):
+def m2e_case(family, maxdepth, timeout=120):
     """Executes the real Form.M2E symbolically up to `maxdepth` decisions (start-branch choice + loop exits after 0, 1, ...
     further Newton steps).  On every path that returns, the exit test |E1-E| < tol holds; with the Lipschitz lemma for
     sin (resp. the convexity lemma for sinh) the Kepler residual of the returned value is <= 2 e tol (resp. 2 e tol cosh)."""
@@ -541,7 +541,7 @@ def m2e_case(family, maxdepth):
 
     def lem(v, out):
         return rec.get("lemma", [])
-    return Case(f"M2E/{family}", ins, run, ref, pre=pre, timeout=120, maxdepth=maxdepth, maxpaths=400, tol=0, abs_tol=0.5,
+    return Case(f"M2E/{family}", ins, run, ref, pre=pre, timeout=timeout, maxdepth=maxdepth, maxpaths=400, tol=0, abs_tol=0.5,
                 extra_assumptions=lem,
                 desc=f"{family}: on every return path of M2E (start branch x exits after <= k Newton steps, unwinding bound "
                      f"{maxdepth} decisions) the returned anomaly solves Kepler's equation to 2 e tol")
@@ -789,7 +789,7 @@ def all_cases(tier):          # noqa: F811  (extends the list defined above)
     cs = [sph_def_case(), sph_back_case(), cyl_case(), cyl_back_case()]
     for fam in ("ell", "hyp"):
         cs += [ecc_case(fam), ecc_back_case(fam), mean_case(fam), k2c_case(fam), kck_case(fam, 30 if tier == "quick" else 600),
-               m2e_case(fam, 8 if tier == "quick" else 11), m2e_start_case(fam), infos_case(fam)]
+               m2e_case(fam, 8 if tier == "quick" else (11 if fam == "ell" else 9), 120 if tier == "quick" else 900), m2e_start_case(fam), infos_case(fam)]
     cs += [tle_case(), tle_back_case(), circ_case(False), circ_case(True), equi_case(), c2k_def_case("any")] + \
           [m2e_side_case(k) for k in ((-11, 0, 1, 94) if tier == "quick" else (-200, -11, -2, -1, 0, 1, 2, 3, 94, 200))]
     return cs
